@@ -253,9 +253,11 @@ func (e *Engine) step(st *State, fr *Frame, in ssa.Instruction, onReturn func(*S
 		id := e.fresh("chan", IntS)
 		st.assume(Gt(id, Zero))
 		fr.regs[x] = VChan{Id: id}
+		st.calls = append(st.calls, callRec{target: "makechan", res: []Val{VChan{Id: id}}, seq: len(st.calls)})
 	case *ssa.Select:
 		// any case may be the one that proceeds; received values are arbitrary
 		e.chanAssumption(fr)
+		e.chanInterference(st)
 		idx := e.fresh("select", IntS)
 		lo := Zero
 		if !x.Blocking {
@@ -265,6 +267,12 @@ func (e *Engine) step(st *State, fr *Frame, in ssa.Instruction, onReturn func(*S
 		out := []Val{VInt{idx}, VBool{e.fresh("recvOk", BoolS)}}
 		for i, sc := range x.States {
 			if sc.Dir == types.RecvOnly {
+				if root := st.frames[0]; root.spec != nil && root.spec.SignalChans && isSignalChan(sc.Chan.Type()) {
+					// signal channels are never sent on: a receive completes only once the channel is closed
+					ch := e.val(st, fr, sc.Chan).(VChan)
+					h := e.heap(st, chanHeap, RowB)
+					st.assume(Implies(Eq(idx, Num(int64(i))), Select(h, ch.Id)))
+				}
 				out = append(out, e.freshVal(st, under(sc.Chan.Type()).(*types.Chan).Elem(), fmt.Sprintf("recv%d", i)))
 			} else {
 				st.calls = append(st.calls, callRec{target: "chan-send?", args: []Val{e.val(st, fr, sc.Chan), e.val(st, fr, sc.Send)}, seq: len(st.calls)})
@@ -939,4 +947,13 @@ func (e *Engine) execMakeSlice(st *State, fr *Frame, x *ssa.MakeSlice) Val {
 
 func (e *Engine) chanAssumption(fr *Frame) {
 	e.Assumptions["channel operations in "+fr.fn.String()+": the communicating goroutines are not modelled (received values are arbitrary, any select case may proceed, blocking is not analysed)"] = true
+}
+
+func isSignalChan(t types.Type) bool {
+	c, ok := t.Underlying().(*types.Chan)
+	if !ok {
+		return false
+	}
+	s, ok := c.Elem().Underlying().(*types.Struct)
+	return ok && s.NumFields() == 0
 }
